@@ -1,5 +1,6 @@
 import ExprModel.Drv.Arith
 import ExprModel.Drv.Code
+import ExprModel.Drv.Determinism
 import ExprModel.Drv.Lex
 import ExprModel.Drv.Parse
 import ExprModel.Drv.Source
@@ -23,7 +24,8 @@ def handlers : List (String × (List Sexp → Sexp)) :=
   Drv.lexHandlers ++
   Drv.walkHandlers ++
   Drv.typesHandlers ++
-  Drv.srcDefectsHandlers
+  Drv.srcDefectsHandlers ++
+  Drv.determinismHandlers
 
 def dispatch (req : Sexp) : Sexp :=
   match req with
